@@ -16,7 +16,7 @@ from the library's (v, w).  Tolerance: 1e-9 x (largest norm of any position datu
 Predicates are only tested where the ground truth is exact in the defining data (common defining point,
 identical or power-of-two rescaled direction vector) or separated by >= 1e-3 relative / 1e-2 rad.
 """
-import math
+import math, itertools
 import numpy as np
 from mc.core import call, HarnessError
 from mc import alph
@@ -938,6 +938,42 @@ def fam_planes(ctx, tier, seed):
                 ctx.cell('Plane.P3', 'ok' if (res['columns'] or res['rows']) else 'bad')
 
 
+def fam_reuse(ctx, tier, seed):
+    """the SAME Plane / Plucker objects used in several operations in a row (added after a seeded change that rescaled a
+    Plane's normal in place): every result must be what elementary geometry gives for the defining data"""
+    sm = _lib()
+    import spatialmath as S
+    planes = [('PN', lambda: S.Plane.PN([1.0, -2.0, 0.5], [2.0, 1.0, -3.0]), np.array([1.0, -2.0, 0.5]), np.array([2.0, 1.0, -3.0])),
+              ('PN-far', lambda: S.Plane.PN([30.0, 10.0, -20.0], [0.0, 0.5, 0.5]), np.array([30.0, 10.0, -20.0]), np.array([0.0, 0.5, 0.5])),
+              ('P3', lambda: S.Plane.P3(np.array([[1.0, 4.0, 2.0], [2.0, -1.0, 0.5], [3.0, 0.0, 7.0]])), np.array([1.0, 2.0, 3.0]),
+               np.cross(np.array([4.0, -1.0, 0.0]) - np.array([1.0, 2.0, 3.0]), np.array([2.0, 0.5, 7.0]) - np.array([1.0, 2.0, 3.0])))]
+    lines = [(np.array([0.0, 0.0, 0.0]), np.array([1.0, 2.0, 3.0])), (np.array([5.0, -1.0, 2.0]), np.array([0.0, 0.0, 2.0])), (np.array([-3.0, 4.0, 1.0]), np.array([1.0, -1.0, 0.5])),
+             (np.array([2.0, 2.0, 2.0]), np.array([-4.0, 1.0, 1.0]))]
+    for (pn, mk, p0, n), order in itertools.product(planes, itertools.permutations(range(len(lines)), 3)):
+        cid = 'C19/reuse/%s/%s' % (pn, ''.join(map(str, order)))
+        if not ctx.want(cid):
+            continue
+        ctx.case(cid, key=cid)
+        P = dict(ctor='Plane.' + pn.split('-')[0], method='intersect_plane', rel='reuse', mag='1')
+        pl = mk()
+        for step, li in enumerate(order):
+            q, d = lines[li]
+            L = S.Plucker.PointDir(q, d)
+            ok, r = call(L.intersect_plane, pl)
+            if not ok or r is None:
+                ctx.fail(cid, 'Plucker.intersect_plane', 'raises:' + type(r).__name__ if not ok else 'returns:NoneType', dict(P, step=step), 'step %d: %r' % (step, r))
+                break
+            lam = float(np.dot(n, p0 - q) / np.dot(n, d))
+            want = q + lam * d
+            if np.abs(np.asarray(r.p, dtype=float) - want).max() > 1e-9 * max(1.0, float(np.abs(want).max()), float(np.abs(q).max())):
+                ctx.fail(cid, 'Plucker.intersect_plane', 'mismatch', dict(P, step=step, what='reuse'),
+                         'step %d with the same Plane object: intersection %s, elementary geometry gives %s' % (step, np.asarray(r.p).tolist(), want.tolist()))
+                break
+        ok, c = call(pl.contains, p0)
+        if ok and not bool(c):
+            ctx.fail(cid, 'Plane.contains', 'mismatch', dict(P, what='reuse-contains'), 'after the intersections the plane no longer contains its defining point')
+
+
 # --------------------------------------------------------------------------- shards
 
 def nshards(tier):
@@ -946,7 +982,7 @@ def nshards(tier):
 
 def shards(tier, seed):
     n = nshards(tier)
-    return [('lines', k, n, tier, seed) for k in range(n)] + [('planes', 0, 1, tier, seed)]
+    return [('lines', k, n, tier, seed) for k in range(n)] + [('planes', 0, 1, tier, seed), ('reuse', 0, 1, tier, seed)]
 
 
 def run_shard(ctx, shard):
@@ -954,6 +990,9 @@ def run_shard(ctx, shard):
     _lib()
     if kind == 'planes':
         fam_planes(ctx, tier, seed)
+        return
+    if kind == 'reuse':
+        fam_reuse(ctx, tier, seed)
         return
     letters = all_letters(tier, seed)
     # pair-family lines are much heavier than the others: deal both kinds round-robin separately
